@@ -121,7 +121,7 @@ func lockFactsCached(r *Run, f *ssa.Function, sp core.Spec) *LockFacts {
 }
 
 func c14Accesses(r *Run, rep *core.Report, reach map[*ssa.Function]bool) {
-	nAtomic, nPlainLocked, nPlainFresh, nImm := 0, 0, 0, 0
+	nAtomic, nPlainLocked, nPlainFresh, nImm, nLockedAtomic := 0, 0, 0, 0, 0
 	for _, f := range r.P.Funcs {
 		if !reach[f] || r.M.Acquire[f] || r.M.Release[f] {
 			continue
@@ -219,6 +219,13 @@ func c14Accesses(r *Run, rep *core.Report, reach map[*ssa.Function]bool) {
 				if r.M.IsSharedWord(a) {
 					nAtomic++
 					emit(true, "C14.A1", fmt.Sprintf("%s atomic %s of %s", fn(f), op, a.Key()), pos, "sync/atomic access", "")
+					// (with typed-atomic bucket words the reads made under the bucket lock are atomic loads too: they count
+					// towards 'the locked readers were seen')
+					if op == "Load" && isBucketOwner(r, a.Owner) {
+						if ok, _ := lockCovers(r, f, addr, in, 0); ok {
+							nLockedAtomic++
+						}
+					}
 				}
 				// A4: pointer values stored into slots are nil or a fresh allocation of this call
 				if (op == "Store") && len(x.Common().Args) == 2 && isBucketOwner(r, a.Owner) {
@@ -337,7 +344,7 @@ func c14Accesses(r *Run, rep *core.Report, reach map[*ssa.Function]bool) {
 	}
 	rep.MinCount("C14.A2", "bucket lock acquisitions examined", nRootLocks, 4)
 	rep.MinCount("C14.A1", "atomic accesses to shared words", nAtomic, 40)
-	rep.MinCount("C14.A2", "plain reads under a bucket lock", nPlainLocked, 10)
+	rep.MinCount("C14.A2", "reads of bucket words under a bucket lock (plain, or atomic where the words are typed atomics)", nPlainLocked+nLockedAtomic, 10)
 	rep.MinCount("C14.A1", "plain accesses to unpublished objects", nPlainFresh, 6)
 	rep.MinCount("C14.A3", "initialising writes of immutable fields", nImm, 6)
 }
